@@ -11,7 +11,19 @@
 //!   statement, checked so that the scope boundary is observed);
 //! * CapsLock toggles the language mode and nothing else among the 14 options; Shift-Space (state
 //!   Entering) toggles the character form iff the toggle key is enabled; no other key changes any
-//!   option; neither toggle nor a configuration call alters the text in the buffer.
+//!   option; neither toggle nor a configuration call alters the text in the buffer;
+//! * "changing a mode never alters text already in the buffer", at EVERY mode change — the CapsLock key in
+//!   any of the four states, the effective Shift-Space key, a `set_editor_options` call that changes the
+//!   language mode or the character form (both directions): the STRING `display()` shows, the composition
+//!   (symbols, gaps, selections), the chosen alternative (`nth_conversion`), the cursor and the saved cursors
+//!   are exactly as before.  What the code legitimately does besides flipping the option, and nothing more:
+//!   the pending phonetic keys may be dropped (CapsLock in EnteringSyllable, a language change through the
+//!   setter), an open candidate list is closed by CapsLock (the cursor returns to the saved one), the state
+//!   becomes Entering after a key toggle, and a buffer that was ALREADY over `auto_commit_threshold` has its
+//!   leading part pushed out by the key's auto-commit (the rest is a suffix of the old buffer; `nth` still
+//!   unchanged).  `alts_pre` (all alternatives the engine offered for the text shown before) tells how many
+//!   toggles met a non-default alternative that READS differently from the default one — only those expose a
+//!   toggle that resets the choice.
 use crate::step::*;
 use chewing::editor::keyboard::KeyCode;
 use std::cell::RefCell;
@@ -29,6 +41,16 @@ struct Seen {
     toggles_nonempty: u64,
     setopts: u64,
     numlock: u64,
+    /// mode changes by kind (`caps` | `shsp` | `setter_lang` | `setter_form` | `setter_both`) x state before (E Y S H)
+    toggle_by: BTreeMap<String, u64>,
+    toggles_nth_nonzero: u64,
+    toggles_nth_nonzero_by: BTreeMap<String, u64>,
+    /// … of which the alternative shown reads differently from the default one (they alone expose a reset of `nth`)
+    toggles_nth_exposing: u64,
+    toggles_nth_exposing_by: BTreeMap<String, u64>,
+    display_compared: u64,
+    display_not_comparable: u64,
+    toggles_over_limit: u64,
 }
 
 thread_local! {
@@ -54,7 +76,164 @@ pub fn finish(out: &mut Out) {
         out.stat("c18_toggles_with_text_in_buffer", s.toggles_nonempty);
         out.stat("c18_setopts_calls", s.setopts);
         out.stat("c18_numlock_keys", s.numlock);
+        for (k, n) in &s.toggle_by {
+            out.stat(&format!("c18_mode_change.{}", k), n);
+        }
+        out.stat("c18_mode_changes_with_nth_nonzero", s.toggles_nth_nonzero);
+        for (k, n) in &s.toggles_nth_nonzero_by {
+            out.stat(&format!("c18_mode_changes_with_nth_nonzero.{}", k), n);
+        }
+        out.stat("c18_mode_changes_with_nth_nonzero_reading_differently", s.toggles_nth_exposing);
+        for (k, n) in &s.toggles_nth_exposing_by {
+            out.stat(&format!("c18_mode_changes_with_nth_nonzero_reading_differently.{}", k), n);
+        }
+        out.stat("c18_mode_changes_display_strings_compared", s.display_compared);
+        out.stat("c18_mode_changes_display_not_comparable", s.display_not_comparable);
+        out.stat("c18_key_toggles_with_buffer_over_limit", s.toggles_over_limit);
+        // the crossing-phrase sessions exist to put a differently reading non-default alternative under every kind of
+        // mode change: if they ran and none did, the generator has lost its teeth
+        let cross = crate::script_c18::cross_sessions_built();
+        out.stat("c18_crossing_sessions", cross);
+        if cross > 0 {
+            for kind in ["caps.E", "caps.Y", "caps.H", "shsp.E", "setter_lang.E", "setter_form.E"] {
+                if s.toggles_nth_exposing_by.get(kind).copied().unwrap_or(0) == 0 {
+                    out.oracle_fail("C18", "new", &format!(
+                        "generator: {} crossing-phrase sessions ran but no mode change of kind {} met a non-default alternative that reads differently from the default one (the only situation exposing a toggle that resets the choice)",
+                        cross, kind));
+                }
+            }
+        }
     });
+}
+
+/// (cursor, saved cursors, composition = symbols + gaps + selections as text)
+fn com_parts(snap: &str) -> (usize, Vec<usize>, String) {
+    let t = com_tokens(snap);
+    let nstack: usize = t[1].parse().unwrap();
+    let stack = t[2..2 + nstack].iter().map(|x| x.parse().unwrap()).collect();
+    (t[0].parse().unwrap(), stack, t[2 + nstack..].join(" "))
+}
+
+fn state_name(c: u8) -> &'static str {
+    match c {
+        b'E' => "Entering",
+        b'Y' => "EnteringSyllable",
+        b'S' => "Selecting",
+        _ => "Highlighting",
+    }
+}
+
+/// "Changing a mode never alters text already in the buffer": `kind` = caps | shsp (keys) | setter_* (configuration call)
+fn check_mode_change(out: &mut Out, st: &Step, kind: &str) {
+    let (pre, post) = (st.pre, st.post);
+    let (a, b) = (sections(pre), sections(post));
+    let (state0, state1) = (a[0].as_bytes()[0], b[0].as_bytes()[0]);
+    let is_key = st.key.is_some();
+    let (s0, s1) = (symbols(pre), symbols(post));
+    let thr = option(pre, 6);
+    let (nth0, nth1) = (misc(pre)[2], misc(post)[2]);
+    let nth: usize = nth0.parse().unwrap_or(0);
+    let tag = format!("{}.{}", kind, state0 as char);
+    let shown_alt = if st.alts_pre.is_empty() { 0 } else { nth % st.alts_pre.len() };
+    let exposing = nth != 0 && !st.alts_pre.is_empty() && st.alts_pre[shown_alt] != st.alts_pre[0];
+    // a key toggle ends with the auto-commit: a buffer already over the limit loses its leading part
+    let over = is_key && s0.len() > thr;
+    SEEN.with(|s| {
+        let mut s = s.borrow_mut();
+        *s.toggle_by.entry(tag.clone()).or_insert(0) += 1;
+        if nth != 0 {
+            s.toggles_nth_nonzero += 1;
+            *s.toggles_nth_nonzero_by.entry(tag.clone()).or_insert(0) += 1;
+        }
+        if exposing {
+            s.toggles_nth_exposing += 1;
+            *s.toggles_nth_exposing_by.entry(tag.clone()).or_insert(0) += 1;
+        }
+        if over {
+            s.toggles_over_limit += 1;
+        }
+    });
+    let what = format!("a mode change ({}, state {})", match kind {
+        "caps" => "CapsLock key",
+        "shsp" => "Shift-Space key",
+        "setter_lang" => "set_editor_options changing the language mode",
+        "setter_form" => "set_editor_options changing the character form",
+        _ => "set_editor_options changing both modes",
+    }, state_name(state0));
+    let shown = |d: Option<&str>| d.map(|x| format!("{:?}", x)).unwrap_or_else(|| "<display() panicked>".into());
+    let alts = format!("alternatives offered before: {:?}, shown: #{}", st.alts_pre, shown_alt);
+    // 1. the chosen alternative, always (the auto-commit does not touch it either)
+    if nth0 != nth1 {
+        out.oracle_fail("C18", "new", &format!(
+            "{} changed the chosen alternative: nth_conversion {} -> {}; text shown {} -> {} ({}): {}",
+            what, nth0, nth1, shown(st.display_pre), shown(st.display_post), alts, st.hist()));
+        return;
+    }
+    // 2. the phonetic buffer: as before, or dropped
+    if a[2] != b[2] && !syl_is_empty(post) {
+        out.oracle_fail("C18", "new", &format!("{} changed the pending phonetic keys to something else than nothing: [{}] -> [{}]: {}", what, a[2], b[2], st.hist()));
+        return;
+    }
+    // 3. the state afterwards
+    let state_ok = if is_key {
+        state1 == b'E'
+    } else {
+        state1 == state0 || (state0 == b'Y' && state1 == b'E' && syl_is_empty(post))
+            || (state0 == b'S' && state1 == b'E' && st.cand_pre.is_some_and(|c| c.all.is_empty()))
+    };
+    if !state_ok {
+        out.oracle_fail("C18", "new", &format!("{} left the editor in state {}: {}", what, state_name(state1), st.hist()));
+        return;
+    }
+    if over {
+        // what stays is the tail of what was there
+        if s1.len() > s0.len() || s0[s0.len() - s1.len()..] != s1[..] {
+            out.oracle_fail("C18", "new", &format!("{} with the buffer over the limit: [{}] -> [{}] is not a suffix: {}", what, s0.join(" "), s1.join(" "), st.hist()));
+        }
+        return;
+    }
+    // 4. the composition: symbols, gaps (break / glue marks), selections
+    let ((cur0, stack0, comp0), (cur1, stack1, comp1)) = (com_parts(pre), com_parts(post));
+    if comp0 != comp1 {
+        out.oracle_fail("C18", "new", &format!(
+            "{} altered the text: symbols / gaps / selections [{}] -> [{}]; text shown {} -> {}: {}",
+            what, comp0, comp1, shown(st.display_pre), shown(st.display_post), st.hist()));
+        return;
+    }
+    // 5. cursor and saved cursors: untouched, except that closing a candidate list returns to the saved cursor
+    let closes_list = state0 == b'S' && state1 == b'E';
+    let (want_cur, want_stack) = if closes_list {
+        let mut stk = stack0.clone();
+        let c = stk.pop().unwrap_or(cur0).min(s0.len());
+        (c, stk)
+    } else {
+        (cur0, stack0.clone())
+    };
+    if (cur1, &stack1) != (want_cur, &want_stack) {
+        out.oracle_fail("C18", "new", &format!(
+            "{} moved the cursor: cursor {} saved {:?} -> cursor {} saved {:?}, expected cursor {} saved {:?}: {}",
+            what, cur0, stack0, cur1, stack1, want_cur, want_stack, st.hist()));
+        return;
+    }
+    // 6. the commit string: a key toggle commits nothing; the configuration call leaves it alone
+    let commit_ok = if is_key { misc(post)[3] == "x" } else { misc(post)[3] == misc(pre)[3] };
+    if !commit_ok {
+        out.oracle_fail("C18", "new", &format!("{} changed the commit string: {} -> {}: {}", what, misc(pre)[3], misc(post)[3], st.hist()));
+        return;
+    }
+    // 7. the STRING the application shows
+    match (st.display_pre, st.display_post) {
+        (Some(d0), Some(d1)) => {
+            SEEN.with(|s| s.borrow_mut().display_compared += 1);
+            if d0 != d1 {
+                out.oracle_fail("C18", "new", &format!(
+                    "{} altered the text shown: {:?} -> {:?} (nth_conversion {} -> {}; {}): {}",
+                    what, d0, d1, nth0, nth1, alts, st.hist()));
+            }
+        }
+        (None, None) => SEEN.with(|s| s.borrow_mut().display_not_comparable += 1),
+        (d0, d1) => out.oracle_fail("C18", "new", &format!("{} altered what display() answers: {} -> {}: {}", what, shown(d0), shown(d1), st.hist())),
+    }
 }
 
 pub fn check(out: &mut Out, st: &Step) {
@@ -66,7 +245,11 @@ pub fn check(out: &mut Out, st: &Step) {
         None => {
             if st.op.starts_with("setopts") {
                 SEEN.with(|s| s.borrow_mut().setopts += 1);
-                if a[1] != b[1] || misc(pre)[3] != misc(post)[3] {
+                // a change of a mode through the configuration interface (leaving the engine / look-up options alone)
+                let (lang, form) = (o0[8] != o1[8], o0[9] != o1[9]);
+                if (lang || form) && o0[11] == o1[11] && o0[12] == o1[12] {
+                    check_mode_change(out, st, if lang && form { "setter_both" } else if lang { "setter_lang" } else { "setter_form" });
+                } else if a[1] != b[1] || misc(pre)[3] != misc(post)[3] {
                     out.oracle_fail("C18", "new", &format!("a configuration call altered the buffer, the cursor or the commit string: {}", st.hist()));
                 }
             }
@@ -99,14 +282,7 @@ pub fn check(out: &mut Out, st: &Step) {
             if !s0.is_empty() { s.toggles_nonempty += 1 }
         });
         // the text in the buffer is not altered (beyond an auto-commit of a buffer that was already over the limit)
-        let same_text = s0 == s1 && misc(post)[3] == "x";
-        let within = s0.len() <= thr;
-        if within && !same_text {
-            out.oracle_fail("C18", "new", &format!("a mode toggle altered the text: [{}] -> [{}], commit {}: {}", s0.join(" "), s1.join(" "), misc(post)[3], st.hist()));
-        }
-        if within && state0 != b'S' && a[1] != b[1] {
-            out.oracle_fail("C18", "new", &format!("a mode toggle moved the cursor or changed gaps/selections: {}", st.hist()));
-        }
+        check_mode_change(out, st, if is_caps { "caps" } else { "shsp" });
         return;
     }
     // ---- the character rule
